@@ -4,7 +4,7 @@
 #include "rcx.hpp"
 
 enum Kind {
-    K_DISCOVER = 1,   // a: station, tos, gen, xid, bridged, nlisted, own_pos(-1 absent)
+    K_DISCOVER = 1,   // a: station, tos, gen, xid, bridged, nlisted, own_pos(-1 absent), addressing(0 broadcast, 1 unicast, 2 real destination own)
     K_RESET = 2,      // a: station, tos, rdst_bcast
     K_EMIT = 3,       // a: station(-1=active), seq, declared(-1=actual) ; blob: 14-byte descriptors
     K_PROBE = 4,      // a: esrc_id, rsrc_id, is_probe, target(0 own,1 other,2 edst own/rdst other,3 edst other/rdst own)
@@ -110,11 +110,14 @@ struct Built {
 // (cases without such steps are untouched) and receives ordinary traffic of its own; what it transmits is discarded. Nothing that
 // happens there may show on the interface under observation - every oracle keeps judging that one as if it were alone.
 struct OtherIf {
-    int idx = -1;
-    Mac mac;
+    int idxs[2] = {-1, -1};
+    Mac macs[2];
     int steps = 0;
     void step(World &w, const HCfg &h, const Op &op) {
-        if (idx < 0) { IfCfg c = h.other_ifcfg(); mac = c.mac; idx = w.add_if(c); }
+        int which = (int)(op.arg(3) & 1);   // up to two further interfaces, so that three instances can be alive
+        if (idxs[which] < 0) { IfCfg c = h.other_ifcfg(); if (which) { c.mac = mac_from_u64(mac_to_u64(c.mac) ^ 0x000200000000ULL); c.mtu = 1280; } macs[which] = c.mac; idxs[which] = w.add_if(c); }
+        int idx = idxs[which];
+        Mac mac = macs[which];
         Mac s = h.st_real((int)(op.arg(1) & 3));
         uint16_t x = (uint16_t)op.arg(2, 1);
         Bytes f;
@@ -157,6 +160,10 @@ static inline Built build_frame(const HCfg &h, const Op &op, const Shadow &sh) {
             for (int i = 0; i < n; i++) st.push_back(mac_from_u64(0x0600BB000000ULL + (uint64_t)i));
             if (op.arg(6, -1) >= 0 && n > 0) st[(size_t)(op.arg(6) % n)] = own;
             b.frame = mk_discover(esrc, rsrc, (uint8_t)op.arg(1), (uint16_t)op.arg(3), (uint16_t)op.arg(2), st);
+            // a[7]: how the Discover is addressed - 0 broadcast at both levels (the norm), 1 to this station at both levels, 2 Ethernet broadcast but
+            // real destination this station. All three are addressed to this station; the Hello that answers is broadcast regardless.
+            if (op.arg(7) == 1) { memcpy(&b.frame[0], own.b, 6); memcpy(&b.frame[18], own.b, 6); }
+            else if (op.arg(7) == 2) memcpy(&b.frame[18], own.b, 6);
             b.is_frame = true;
             break;
         }
@@ -181,8 +188,18 @@ static inline Built build_frame(const HCfg &h, const Op &op, const Shadow &sh) {
             break;
         }
         case K_PROBE: {
-            Mac e = mac_from_u64(0x0400CC000000ULL + (uint64_t)(op.arg(0) & 0xFFFFFF));
-            Mac r = mac_from_u64(0x0400DD000000ULL + (uint64_t)(op.arg(1) & 0xFFFFFF));
+            // identities 0xFFFFF0..3 stand for addresses with a special look: the responder's own, all-zero, all-ones, the first station's
+            auto special = [&](int64_t id, uint64_t base) -> Mac {
+                switch (id & 0xFFFFFF) {
+                    case 0xFFFFF0: return own;
+                    case 0xFFFFF1: return ZEROMAC;
+                    case 0xFFFFF2: return BCAST;
+                    case 0xFFFFF3: return h.st_real(0);
+                    default: return mac_from_u64(base + (uint64_t)(id & 0xFFFFFF));
+                }
+            };
+            Mac e = special(op.arg(0), 0x0400CC000000ULL);
+            Mac r = special(op.arg(1), 0x0400DD000000ULL);
             Mac other = mac_from_u64(0x0400EE000001ULL);
             int t = (int)op.arg(3);
             Mac edst = (t == 0 || t == 2) ? own : other;
@@ -300,7 +317,7 @@ inline rc::Gen<Op> op_gen(const HistWeights &w) {
     if (w.discover) alts.push_back({(size_t)w.discover, rc::gen::exec([=] {
         Op o; o.kind = K_DISCOVER;
         int64_t n = *bnd({0, 1, 2, 3}, 0, 8, 2, 1);
-        o.a = {*st(), *tos_gen(w.odd_tos), *gen_gen(), *bnd({0, 1, 0xFFFF}, 0, 0xFFFF, 1, 1), *pick({0, 0, 1}), n, *range<int64_t>(-1, 7)};
+        o.a = {*st(), *tos_gen(w.odd_tos), *gen_gen(), *bnd({0, 1, 0xFFFF}, 0, 0xFFFF, 1, 1), *pick({0, 0, 1}), n, *range<int64_t>(-1, 7), *pick({0, 0, 0, 0, 0, 0, 0, 0, 1, 2})};
         return o; })});
     if (w.reset) alts.push_back({(size_t)w.reset, rc::gen::exec([=] {
         Op o; o.kind = K_RESET; o.a = {*st(), *tos_gen(w.odd_tos), *pick({0, 1})}; return o; })});
@@ -309,6 +326,8 @@ inline rc::Gen<Op> op_gen(const HistWeights &w) {
     if (w.probe) alts.push_back({(size_t)w.probe, rc::gen::exec([=] {
         Op o; o.kind = K_PROBE;
         o.a = {*range<int64_t>(0, w.probe_ids - 1), *range<int64_t>(0, 2), *pick({0, 1}), *pick({0, 0, 0, 0, 1, 2, 3})};
+        if (*chance(6)) o.a[1] = *pick({0xFFFFF0, 0xFFFFF0, 0xFFFFF1, 0xFFFFF2, 0xFFFFF3});   // a probe that claims the responder itself, nobody, everybody or the mapper as its origin
+        else if (*chance(3)) o.a[0] = *pick({0xFFFFF0, 0xFFFFF1, 0xFFFFF3});
         return o; })});
     if (w.query) alts.push_back({(size_t)w.query, rc::gen::exec([=] {
         Op o; o.kind = K_QUERY; o.a = {*cmd_st(), *seq0_gen()}; return o; })});
@@ -336,7 +355,7 @@ inline rc::Gen<Op> op_gen(const HistWeights &w) {
         // marker op: expanded by expand_bursts() into `count` K_PROBE ops with consecutive identities (enough to cross the per-frame capacity)
         Op o; o.kind = K_PBURST; o.a = {*range<int64_t>(100, 5000), *bnd({26, 27, 28, 29, 30, 72, 73, 74, 75}, 1, 120, 2, 1)}; return o; })});
     if (w.otherif) alts.push_back({(size_t)w.otherif, rc::gen::exec([=] {
-        Op o; o.kind = K_OTHERIF; o.a = {*range<int64_t>(0, 8), *range<int64_t>(0, 2), *pick({1, 2, 3, 0x0101, 0x7FFF})}; return o; })});
+        Op o; o.kind = K_OTHERIF; o.a = {*range<int64_t>(0, 8), *range<int64_t>(0, 2), *pick({1, 2, 3, 0x0101, 0x7FFF}), *pick({0, 0, 1})}; return o; })});
     if (w.seticon) alts.push_back({(size_t)w.seticon, rc::gen::exec([=] { Op o; o.kind = K_SETICON; o.blob = *bytes(1, 700); return o; })});
     return gx::weighted<Op>(alts);
 }
